@@ -8,6 +8,7 @@ from .. import docgen as D, kdoc as K, spine as S
 from ..common import Bad, Result
 
 ID = 'C06'
+SHARDS_QUICK = 4
 RULE = ('Hypothesis documents (profile "full" with extra split/join weight, up to 4 spines and 3 sub-spines per spine) x '
         'EVERY subset of spine ids (2^n), EVERY subset of the spine types present, and for each document 6 drawn '
         '(ids, types) combinations given together (plus absent ids / absent types).  Oracle: the column -> spine map of '
@@ -112,7 +113,7 @@ def check(case):
 
 
 def run(ctx):
-    ctx.run_hypothesis(cases(), check, max_examples=250 if ctx.quick else 1500, label='projection')
+    ctx.run_hypothesis(cases(), check, max_examples=90 if ctx.quick else 1500, label='projection')
 
 
 def replay(case):
